@@ -12,7 +12,8 @@ import (
 
 func main() {
 	core.Main("DEV", func(c *core.Ctx) {
-		for _, f := range append(families.All(len(os.Args) > 3), families.Deep(len(os.Args) > 3)...) {
+		th := c.Thorough() || len(os.Args) > 3 && os.Args[1] != "--tier"
+		for _, f := range append(append(families.All(th), families.Deep(th)...), families.HTTPLevel(th)...) {
 			if f.Name != os.Args[len(os.Args)-1] {
 				continue
 			}
